@@ -617,7 +617,7 @@ pub fn replay(_e: &str, case: &serde_json::Value) -> Result<(), String> {
 }
 
 pub fn run(ctx: &Ctx) -> Report {
-    let (stats, failure) = run_proptest(ctx, "blk", 141, ctx.n(300_000, 6_000_000), strategy, |c: &BCase, st| check(c, st));
+    let (stats, failure) = run_proptest(ctx, "blk", 141, ctx.n(300_000, 12_000_000), strategy, |c: &BCase, st| check(c, st));
     Report {
         stats,
         failure,
